@@ -34,17 +34,45 @@ fn gz_with_header(payload: &[u8], level: u32, g: &mut G) -> Vec<u8> {
     if comment {
         flags |= 16;
     }
-    let mut v = vec![0x1f, 0x8b, 8, flags, 0, 0, 0, 0, 0, 255];
+    // (no draw) the remaining header options: FTEXT, a header checksum (FHCRC), a modification time, XFL/OS
+    // values, and optional fields longer than one read buffer
+    let n = payload.len();
+    let hcrc = n % 4 == 1;
+    if n % 4 == 2 {
+        flags |= 1;
+    }
+    if hcrc {
+        flags |= 2;
+        g.probe("gzip-header-checksum");
+    }
+    let long_fields = n % 5 == 3;
+    let mtime: u32 = if n % 3 == 0 { 0 } else { 1_700_000_000 + n as u32 };
+    let mut v = vec![0x1f, 0x8b, 8, flags];
+    v.extend_from_slice(&mtime.to_le_bytes());
+    v.push([0u8, 2, 4][n % 3]);
+    v.push([255u8, 3, 0, 11][n % 4]);
     if extra {
-        let e = b"AP\x04\x00data";
+        let mut e = b"AP\x04\x00data".to_vec();
+        if long_fields {
+            e = vec![b'e'; 9000];
+            e[..4].copy_from_slice(b"ZZ\x24\x23");
+        }
         v.extend_from_slice(&(e.len() as u16).to_le_bytes());
-        v.extend_from_slice(e);
+        v.extend_from_slice(&e);
     }
     if name {
+        if long_fields {
+            v.extend(std::iter::repeat(b'n').take(9000));
+        }
         v.extend_from_slice(b"file name.txt\0");
     }
     if comment {
         v.extend_from_slice(b"a comment\0");
+    }
+    if hcrc {
+        let mut c = flate2::Crc::new();
+        c.update(&v);
+        v.extend_from_slice(&((c.sum() & 0xffff) as u16).to_le_bytes());
     }
     let mut enc = flate2::write::DeflateEncoder::new(Vec::new(), Compression::new(level));
     enc.write_all(payload).unwrap();
